@@ -240,8 +240,14 @@ def _mutations(f: FuncInfo) -> List[Tuple[ast.AST, ast.expr, str]]:
             out.append((x, x.func.value, f'.{x.func.attr}()'))
         elif isinstance(x, (ast.Subscript, ast.Attribute)) and isinstance(x.ctx, (ast.Store, ast.Del)):
             out.append((x, x.value, 'store'))
-        elif isinstance(x, ast.AugAssign) and isinstance(x.target, (ast.Name,)):
-            pass
+        elif isinstance(x, ast.AugAssign) and isinstance(x.target, ast.Name) and isinstance(x.op, (ast.Add, ast.BitOr)):
+            v = x.value
+            listy = isinstance(v, (ast.List, ast.ListComp, ast.Dict, ast.DictComp, ast.Set, ast.SetComp)) or \
+                (isinstance(v, ast.Call) and dotted(v.func) in ('list', 'dict', 'set', 'sorted')) or \
+                (isinstance(v, ast.BoolOp) and any(isinstance(y, (ast.List, ast.Dict)) for y in v.values)) or \
+                (isinstance(v, ast.Call) and isinstance(v.func, ast.Attribute) and v.func.attr.startswith('extract_'))
+            if listy:
+                out.append((x, ast.copy_location(ast.Name(id=x.target.id, ctx=ast.Load()), x), 'in-place +=/|='))
     return out
 
 
